@@ -154,7 +154,7 @@ def compare_texts(verbose, compact):
             amb = False
             for tv, tx, ty in zip(x[2], nx[1:], ny[1:]):
                 if tx != ty and ambiguous_bare(tv):
-                    amb = True
+                    amb = tv
             return (f"line {i}: {' '.join([x[1]] + x[2])}  vs  {' '.join([y[1]] + y[2])}  ({nx} vs {ny})", amb)
     return None
 
@@ -254,8 +254,11 @@ def main(tier, seed):
             amb = False
             if isinstance(d, tuple):
                 d, amb = d
+            src_text = jobs[i][0] if isinstance(jobs[i][0], str) else " ".join(jobs[i][0].values())
+            bare_from = sorted(set(re.findall(r"\b(\w+)\." + re.escape(amb) + r"\b", src_text))) if amb else []
             run.violation("compact and verbose outputs are not the same instruction sequence after evaluating tokens",
-                          {"kind": "pair", "program": name, "source": jobs[i][0], "difference": d, "ambiguous_bare_enum_name": amb,
+                          {"kind": "pair", "program": name, "source": jobs[i][0], "difference": d, "ambiguous_bare_enum_name": bool(amb),
+                           "bare_name": amb or None, "bare_name_from": bare_from,
                            "verbose": a["code"][:1500], "compact": b["code"][:1500]})
         elif pairs == 3:
             run.sample({"verbose": a["code"][:300], "compact": b["code"][:300]})
